@@ -51,6 +51,18 @@
     const int cannot = pre.type == T_FILE || HS(&pre) == HE(&pre);
     if (cannot) CHECK(!rv && st_equal(&pre, &post), "host null/empty or file: credentials cannot be set");
     CHECK(FRAME(OP_SET_USERINFO), "frame: every other component unchanged");
+#ifdef WITH_LIMIT
+    if (!rv && !cannot) {
+      /* the only other reason to fail is the limit: the result would not have fitted */
+      uint8_t enc0[3 * MM + 1]; uint64_t el0 = ref_percent_encode(I.val, M, SET_USERINFO, enc0);
+      struct slice g0 = (OP_SET_USERINFO == F_USER) ? g_username(&pre) : g_password(&pre);
+      const int had_creds = UE(&pre) > PE(&pre) + 2 || HS(&pre) > UE(&pre);
+      /* a conservative lower bound of the new length: old length - old slot + new slot */
+      CHECK(pre.L - (g0.e - g0.b) + el0 + (had_creds || el0 == 0 ? 0 : 1) > LIMIT || pre.L - (g0.e - g0.b) + el0 + 2 > LIMIT, "a setter only fails when the result would exceed the limit");
+    }
+#else
+    if (!cannot) CHECK(rv, "with no limit in force the credential setters succeed");
+#endif
     if (rv) {
       uint8_t enc[3 * MM + 1]; uint64_t el = ref_percent_encode(I.val, M, SET_USERINFO, enc);
       struct slice g = (OP_SET_USERINFO == F_USER) ? g_username(&post) : g_password(&post);
@@ -80,7 +92,16 @@
     else if (!anychar) CHECK(rv && st_equal(&pre, &post), "value of only tab/newline: no change");
     else if (nd == 0) CHECK(!rv && st_equal(&pre, &post), "value not starting with a digit: failure, no change");
     else if (num > 65535) CHECK(!rv && st_equal(&pre, &post), "port above 65535: failure, no change");
-    else { CHECK(rv, "valid port accepted"); CHECK(PORT(&post) == ((inv_default_port(pre.type) != 0 && num == inv_default_port(pre.type)) ? OMIT : num), "port equals the parsed number; the default port is stored as null"); }
+    else {
+      const uint32_t want = (inv_default_port(pre.type) != 0 && num == inv_default_port(pre.type)) ? OMIT : num;
+#ifdef WITH_LIMIT
+      /* under a limit the setter must fail exactly when the resulting href would be longer than the limit */
+      const uint32_t newlen = pre.L - (PS(&pre) - HE(&pre)) + (want == OMIT ? 0 : 1 + inv_ndigits(want));
+      if (newlen > LIMIT) CHECK(!rv && st_equal(&pre, &post), "result would exceed the limit: failure, URL unchanged");
+      else
+#endif
+      { CHECK(rv, "valid port accepted"); CHECK(PORT(&post) == want, "port equals the parsed number; the default port is stored as null"); }
+    }
     if (rv && PORT(&post) != PORT(&pre)) REACH("port changed");
   }
 #elif defined(OP_SET_QF)
